@@ -28,6 +28,9 @@ type Call struct {
 	// Predicted is that check's answer (filled in by the driver)
 	Follows   bool   `json:"follows,omitempty"`
 	Predicted string `json:"predicted,omitempty"`
+	// Ev == "env": the environment switches the machine's backoff on / off
+	// (Machine.LastHandlerDeadline), no mutation is issued
+	Backoff bool `json:"backoff"`
 }
 
 type NestAt struct {
@@ -230,7 +233,9 @@ func AutoSchema(r *rand.Rand) (am.S, am.Schema) {
 		sch[n] = st
 	}
 	names = append(names, "T", "U")
-	sch["T"] = am.State{}
+	// a Multi trigger: calling it again moves its clock (+2) while the active
+	// set stays the same - still a state change that is owed an auto mutation
+	sch["T"] = am.State{Multi: r.Intn(2) == 0}
 	sch["U"] = am.State{}
 	if HasRequireRemoveConflict(sch) {
 		return AutoSchema(r)
@@ -405,8 +410,39 @@ func RandCalls(r *rand.Rand, c *Case, n int, vetoP float64, maxVeto int) []Call 
 			calls = append(calls, f)
 		}
 	}
+	if BackoffP > 0 && r.Float64() < BackoffP && len(calls) >= 2 {
+		// a handler deadline was hit: the machine backs off for a stretch of the
+		// history (never between a check call and the call that follows it up)
+		var cut []int
+		for i := 1; i < len(calls); i++ {
+			if !calls[i].Follows {
+				cut = append(cut, i)
+			}
+		}
+		if len(cut) > 0 {
+			from := cut[r.Intn(len(cut))]
+			to := from + 1 + r.Intn(2)
+			for to < len(calls) && calls[to].Follows {
+				to++
+			}
+			if to > len(calls) {
+				to = len(calls)
+			}
+			var out []Call
+			out = append(out, calls[:from]...)
+			out = append(out, Call{Ev: "env", Backoff: true, Called: am.S{}, Veto: [][]any{}, Nest: []NestAt{}})
+			out = append(out, calls[from:to]...)
+			out = append(out, Call{Ev: "env", Backoff: false, Called: am.S{}, Veto: [][]any{}, Nest: []NestAt{}})
+			out = append(out, calls[to:]...)
+			calls = out
+		}
+	}
 	return calls
 }
+
+// BackoffP is the probability that a generated history contains a stretch
+// during which the machine is backing off.
+var BackoffP = 0.0
 
 // NestP is the probability that a generated call carries handler-issued
 // (nested) mutations.
